@@ -318,7 +318,6 @@ Theorem transpose_full m nmaj ud imax sl E L Lc :
   wf_comp m imax -> length (ptr m) = S nmaj ->
   (ud = true -> length (dat m) = length (idx m)) ->
   1 <= L -> 1 <= Lc ->
-  (ud = true -> length (apply_slice sl (all_entries m ud)) <> 0) ->
   exists t, transpose m ud imax sl E L Lc = Ok t /\
     let out := t_out t in
     let n_out := n_out_of imax sl in
@@ -336,8 +335,8 @@ Theorem transpose_full m nmaj ud imax sl E L Lc :
        dense_of out n_out nmaj =
        map (fun r => map (fun j => cell m j (slice_lo sl + r)) (seq 0 nmaj)) (seq 0 n_out)).
 Proof.
-  intros W HP HD HL HLc Hnz. pose proof W as (_ & _ & _ & HF).
-  destruct (transpose_exact m ud imax sl E L Lc HL HLc HD (fun _ => HF) Hnz) as (t & EQ & EO & CH).
+  intros W HP HD HL HLc. pose proof W as (_ & _ & _ & HF).
+  destruct (transpose_exact m ud imax sl E L Lc HL HLc HD (fun _ => HF)) as (t & EQ & EO & CH).
   exists t. split; [exact EQ|]. cbn zeta. rewrite EO.
   destruct (spec_ptr_clauses m ud imax sl (fun _ => HF)) as (P0 & PM & PL & PLast & PN & PD).
   cbn zeta in P0, PM, PL, PLast, PN, PD.
